@@ -232,3 +232,8 @@ TEXT["C17"] = _t("Tables through the real Service.ServeHTTP: every predefined er
                  "function tables through the real HTTP handler and matchesOrigins, checked by TLC against spec/fn/HttpStatus.tla and spec/fn/Origin.tla",
                  note="WebSocket upgrade rows (Sec-WebSocket-* protection) are not in the table yet; HTTP only. Bounded alphabets.")
 import json as _json
+
+PROPS["C16"] = dict(run=tables.tables_run(["render", "httppost"], "HTTP rendering"))
+TEXT["C16"] = _t("GET through the real Service.ServeHTTP for every resource graph of a bounded family (root: all models with two keys - one needing JSON escaping - and collections up to two long over {primitive, data value, soft reference, reference to each of three resources}; second level models/collections/error; third level models incl. a back reference, or error), for both API encodings: the body must be well-formed JSON whose tree equals spec/fn/HttpRender.tla's recursive expansion (path-based cycle cut, soft references and cycles as href only, data unwrapped, errors in place). POST verbatim / 204 for null / Location for resource responses, HEAD = GET status and headers.",
+                 "exhaustive graph table through the real HTTP handler checked by TLC against spec/fn/HttpRender.tla",
+                 note="Three resources, fixed apiPath /api/; keys limited to two (one with a quote). JSON well-formedness beyond this key/value alphabet is not covered.")
